@@ -37,6 +37,9 @@ var vgTemplates = []vgTemplate{
 	{name: "T1", kind: "transfer", asset: "BTC", ins: [][2]any{{"D1", 1}}, outs: []uint64{1500, 500}},
 	{name: "T2", kind: "transfer", asset: "BTC", ins: [][2]any{{"T1", 1}, {"D3", 1}}, outs: []uint64{1900}},
 	{name: "T3", kind: "transfer", asset: "BTC", ins: [][2]any{{"T1", 1}}, outs: []uint64{1500}},
+	// outputs that do not add up to the inputs (TI creates 100, TD destroys 100): never valid
+	{name: "TI", kind: "transfer", asset: "BTC", ins: [][2]any{{"D3", 1}}, outs: []uint64{500}},
+	{name: "TD", kind: "transfer", asset: "BTC", ins: [][2]any{{"D3", 1}}, outs: []uint64{300}},
 	{name: "W1", kind: "submit", asset: "BTC", ins: [][2]any{{"T1", 2}}, outs: []uint64{300, 200}},
 	{name: "X1", kind: "deposit", asset: "XIN", amt: 10, outs: []uint64{10}},
 	{name: "K1", kind: "claim", asset: "XIN", ins: [][2]any{{"X1", 1}}, outs: []uint64{1, 9}, ref: "W1"},
@@ -114,7 +117,7 @@ func vgBuild(w *vnWorld, tag string) *vgLedger {
 			}
 			h := tx.AsVersioned().PayloadHash()
 			if int(h[0])/16 != k {
-				// 13 templates: bands of 16 of the first hash byte
+				// 15 templates: bands of 16 of the first hash byte
 				continue
 			}
 			ver := tx.AsVersioned()
@@ -149,16 +152,28 @@ func vgBuild(w *vnWorld, tag string) *vgLedger {
 
 func vgKey(b []string) string { return strings.Join(b, "+") }
 
+// Every batch is proposed on a chain of its own while it is pending (validated, not applied yet), so that
+// certificates may arrive in any order; a chain is free again once its batch was applied or given up.
 func (g *vgLedger) snapshotFor(b []string) *common.Snapshot {
 	k := vgKey(b)
 	if s := g.snaps[k]; s != nil {
 		return s
 	}
-	ci, ok := g.chains[k]
-	if !ok {
-		ci = len(g.chains) % len(g.w.ids)
-		g.chains[k] = ci
+	busy := map[int]bool{}
+	for _, ci := range g.chains {
+		busy[ci] = true
 	}
+	ci := -1
+	for i := range g.w.ids {
+		if !busy[i] {
+			ci = i
+			break
+		}
+	}
+	if ci < 0 {
+		g.w.t.Fatalf("verif harness: more pending batches than chains")
+	}
+	g.chains[k] = ci
 	g.opn++
 	var txs []*common.VersionedTransaction
 	for _, n := range b {
@@ -168,6 +183,13 @@ func (g *vgLedger) snapshotFor(b []string) *common.Snapshot {
 	g.snaps[k] = s
 	g.bnames[s.Hash] = k
 	return s
+}
+
+// the batch is no longer pending: its snapshot was applied, refused, or its validation failed
+func (g *vgLedger) release(b []string) {
+	k := vgKey(b)
+	delete(g.chains, k)
+	delete(g.snaps, k)
 }
 
 func vgUnits(x common.Integer) int {
@@ -349,8 +371,12 @@ func TestVerifLedgerReplay(t *testing.T) {
 				}
 				if res == "ok" {
 					pending = append(pending, b)
+				} else {
+					g.release(b)
 				}
-			case "Apply":
+			case "Apply", "ApplyF":
+				// Apply: the certificate of a batch this node validated arrives. ApplyF: a batch certified
+				// by the other nodes arrives without this node having validated it.
 				rest := pending[:0]
 				for _, pb := range pending {
 					if strings.Join(pb, ",") != key {
@@ -359,6 +385,31 @@ func TestVerifLedgerReplay(t *testing.T) {
 				}
 				pending = rest
 				res, detail, _ := w.finalize(s)
+				g.release(b)
+				if op == "ApplyF" {
+					// batches of this node that lost a transaction to the foreign batch (deleted from the
+					// store) or share one with it can never be certified any more
+					keep := pending[:0]
+					for _, pb := range pending {
+						ok := true
+						for _, n := range pb {
+							if ver, _, _ := w.store.ReadTransaction(g.txs[n].PayloadHash()); ver == nil {
+								ok = false
+							}
+							for _, m := range b {
+								if m == n {
+									ok = false
+								}
+							}
+						}
+						if ok {
+							keep = append(keep, pb)
+						} else {
+							g.release(pb)
+						}
+					}
+					pending = keep
+				}
 				applied := false
 				if res != "panic" {
 					if sn, err := w.store.ReadSnapshot(s.Hash); err == nil && sn != nil {
